@@ -660,6 +660,20 @@ pub fn mutate_doc(rng: &mut Rng, doc: &mut String, n: usize) -> String {
     for _ in 0..n {
         let toks = lex(doc);
         match rng.below(9) {
+            0 if rng.chance(1, 6) => {
+                // an unknown element / attribute with a long name (size thresholds in name handling)
+                let n = *rng.pick(&[33usize, 65, 70, 129, 300]);
+                let name: String = rng.pick(&["n", "n\u{e9}", "ns:n"]).chars().cycle().take(n).collect();
+                let name = if name.ends_with(':') { format!("{}x", name) } else { name };
+                let at = if toks.is_empty() { 0 } else { let t = rng.pick(&toks); if rng.bool() { t.0 } else { t.1 } };
+                let ins = match rng.below(3) {
+                    0 => format!("<{}>x</{}>", name, name),
+                    1 => format!("<{}/>", name),
+                    _ => format!("<{} {}=\"v\"><i/></{}>", name, name, name),
+                };
+                doc.insert_str(at, &ins);
+                note.push_str(&format!("ins long-named element ({} bytes)@{}; ", n, at));
+            }
             0 | 1 | 2 => {
                 // insert at a token boundary or inside text
                 let at = if toks.is_empty() || rng.chance(1, 4) {
